@@ -54,7 +54,7 @@ def systematic(tier):
         for schedule in common.systematic_schedules(KINDS, list(range(0, ticks + 1)), max_len):
             if not any(a['act'] in ('pause', 'play') for a in schedule):
                 continue
-            cases.append({'program': program, 'schedule': schedule, 'opts': {}, 'origin': f'systematic:{name}'})
+            cases.append({'program': program, 'schedule': schedule, 'opts': {'final_play': True}, 'origin': f'systematic:{name}'})
     _sys_cache[tier] = cases
     return cases
 
@@ -67,7 +67,7 @@ def random_case(rng, tier):
     for action in schedule:
         if action['act'] == 'pause':
             action['msg'] = rng.choice([None, 'paused-by-env', 'p2'])
-    return {'program': program, 'schedule': schedule, 'opts': {}}
+    return {'program': program, 'schedule': schedule, 'opts': {'final_play': True}}
 
 
 def shrink(case):
@@ -76,7 +76,7 @@ def shrink(case):
 
 def run(case):
     result = Result()
-    reference = common.reference_run(case['program'])
+    reference = common.reference_run(case['program'], case.get('opts'))
     engine = common.new_engine(case, record_hooks=False)
     try:
         if not engine.start():
